@@ -441,6 +441,14 @@ TrProbe ==
              O("C14", "probe.capacity", Rec[l].filled = Rec[l].fresh) >>)
   /\ UNCHANGED <<kind, n, l2v, hs, gcN, roN, aux>>
 
+(* DDDMP export of live handles: a read-only traversal; the handles must be
+   known, the call must not fail; the next snapshot audits the store *)
+TrExport ==
+  /\ Ev("export")
+  /\ Step(<< O("C05", "export.ok", ~Has(Rec[l], "res") /\ \A i \in 1 .. Len(Rec[l].a) : Rec[l].a[i] \in Live),
+             O("C15", "export.ok", ~Has(Rec[l], "res")) >>)
+  /\ UNCHANGED <<kind, n, l2v, hs, gcN, roN, aux>>
+
 (* a collection that ran concurrently with operations of other threads *)
 TrCGc ==
   /\ Ev("cgc")
@@ -564,7 +572,7 @@ TrInit ==
 TrNext ==
   \/ TrReset \/ TrAddVars \/ TrOp \/ TrCofNone \/ TrClone \/ TrDrop
   \/ TrGc \/ TrReorder \/ TrObs \/ TrSnap \/ TrAdopt \/ TrConstructMismatch
-  \/ TrRows \/ TrBegin \/ TrPick \/ TrUni \/ TrCount \/ TrExpectOk \/ TrCGc \/ TrProbe
+  \/ TrRows \/ TrBegin \/ TrPick \/ TrUni \/ TrCount \/ TrExpectOk \/ TrCGc \/ TrProbe \/ TrExport
 
 TrSpec == TrInit /\ [][TrNext]_tvars
 
